@@ -33,6 +33,7 @@ Sim *make_stream_sim();
 Sim *make_streamhuge_sim();
 Sim *make_gcmhuge_sim();
 Sim *make_cbchuge_sim();
+Sim *make_gcmjump_sim();
 const uint8_t *huge_in_window();
 uint8_t *huge_out_window();
 uint8_t *huge_out_pattern();
